@@ -385,10 +385,6 @@ func bindArgs(ms *MethodSpec, params *J) ([]*J, int) {
 	return args, bindOK
 }
 
-func validID(v *J) bool {
-	return v != nil && (v.K == 's' || v.K == 'n' || (v.K == '#'))
-}
-
 func classify(w *World, v *J) *entry {
 	e := &entry{src: v, kind: ekInvalid}
 	if v.K != '{' {
@@ -525,10 +521,7 @@ func checkResponseObject(r *J) (*respInfo, *Verdict) {
 				return bad("response-error-malformed", "error without code or message")
 			}
 		case "id":
-			if !validID(m.V) {
-				return bad("response-bad-id", "id is not a string, number or null")
-			}
-			ri.id = m.V
+			ri.id = m.V // its type is judged against the request it answers
 		default:
 			return bad("response-unexpected-member", "unexpected member %q", m.K)
 		}
@@ -565,18 +558,26 @@ func (e *entry) accepts(w *World, r *respInfo, single bool) (bool, *Verdict) {
 		if !(r.code == "-32600" || (single && r.code == "-32700")) {
 			return false, nil
 		}
-		return isNull || sameID(e.id, r.id), nil
+		// id null, or the request's own id member echoed verbatim (even when that member is not a legal id)
+		// (an echoed array / object id has been through a Go map: compared by kind only)
+		idv := e.src.get("id")
+		return isNull || sameJSON(idv, r.id) || (idv != nil && idv.K == r.id.K && (idv.K == '[' || idv.K == '{')), nil
 	case ekFuzzy:
 		if neither {
+			if e.mayCallNilres(w) {
+				return true, nilResultVerdict(r, e)
+			}
 			return false, nil
 		}
-		idv := e.src.get("id")
-		if isNull || idv == nil {
+		if isNull {
 			return true, nil
+		}
+		if e.src.K != '{' {
+			return false, nil
 		}
 		// any member that case-folds to "id" may have been taken as the id
 		for _, m := range e.src.O {
-			if foldASCII(m.K) == "ID" && sameID(m.V, r.id) {
+			if foldASCII(m.K) == "ID" && (sameJSON(m.V, r.id) || (m.V.K == r.id.K && (m.V.K == '[' || m.V.K == '{'))) {
 				return true, nil
 			}
 		}
@@ -602,7 +603,13 @@ func (e *entry) accepts(w *World, r *respInfo, single bool) (bool, *Verdict) {
 		case bindNo:
 			return r.hasError && r.code == "-32602", nil
 		case bindUnknown:
-			return !neither, nil
+			if neither {
+				if e.ms.Beh == "nilres" {
+					return true, nilResultVerdict(r, e)
+				}
+				return false, nil
+			}
+			return true, nil
 		}
 		// the handler ran with e.args
 		switch e.ms.Beh {
@@ -615,8 +622,7 @@ func (e *entry) accepts(w *World, r *respInfo, single bool) (bool, *Verdict) {
 				return true, nil
 			}
 			if neither {
-				return true, &Verdict{Sig: "nil-result-response-has-neither-result-nor-error",
-					What: "handler returned (nil, nil); the response has neither result nor error: " + r.src.String() + " for " + e.src.String()}
+				return true, nilResultVerdict(r, e)
 			}
 			return false, nil
 		case "fail":
@@ -634,6 +640,26 @@ func (e *entry) accepts(w *World, r *respInfo, single bool) (bool, *Verdict) {
 		}
 	}
 	return false, nil
+}
+
+func nilResultVerdict(r *respInfo, e *entry) *Verdict {
+	return &Verdict{Sig: "nil-result-response-has-neither-result-nor-error",
+		What: "handler returned (nil, nil); the response has neither result nor error: " + r.src.String() + " for " + e.src.String()}
+}
+
+// mayCallNilres: some member that Go would take as the method names a handler returning (nil, nil)
+func (e *entry) mayCallNilres(w *World) bool {
+	if e.src.K != '{' {
+		return false
+	}
+	for _, m := range e.src.O {
+		if foldASCII(m.K) == "METHOD" && m.V.K == 's' {
+			if ms, ok := w.byName[m.V.S]; ok && ms.Beh == "nilres" {
+				return true
+			}
+		}
+	}
+	return false
 }
 
 func (e *entry) mustRespond() bool { return e.kind == ekInvalid || e.kind == ekCall }
@@ -742,7 +768,10 @@ func judge(w *World, input []byte, o Obs) []Verdict {
 	}
 
 	if perr != nil {
-		if !singleError("-32700") {
+		firstIsBracket := lead < len(input) && input[lead] == '['
+		if w.Spec.BatchDisabled && firstIsBracket && singleError("-32600") {
+			// batches are refused at the first byte, before the rest is parsed: an admissible reading
+		} else if !singleError("-32700") {
 			add("unparsable-input-not-answered-with-32700", "input is not JSON; expected one error object with code -32700 and id null")
 		}
 		if len(o.Calls) > 0 {
@@ -811,46 +840,83 @@ func judge(w *World, input []byte, o Obs) []Verdict {
 		}
 		resps = []*J{out}
 	}
-	fuzzy := 0
-	for _, e := range entries {
-		if e.kind == ekFuzzy {
-			fuzzy++
-		}
+	// assign responses to requests: maximum bipartite matching, preferring strict readings, then
+	// the ambiguous entries, and only then the known deviation "a notification is answered"
+	type edge struct {
+		ok   bool
+		v    *Verdict
+		tier int
 	}
+	var infos []*respInfo
 	for _, r := range resps {
 		ri, v := checkResponseObject(r)
 		if v != nil {
 			vs = append(vs, Verdict{Sig: v.Sig, What: v.What + " | input " + short(input)})
 			continue
 		}
-		// strict classes first, fuzzy entries last, notifications (a deviation) last of all
-		var hit *entry
-		var hitV *Verdict
-		for _, pass := range [][]int{{ekCall, ekInvalid}, {ekNullID}, {ekFuzzy}, {ekNotif}} {
-			for _, e := range entries {
-				if e.matched || (e.kind != pass[0] && (len(pass) < 2 || e.kind != pass[1])) {
+		infos = append(infos, ri)
+	}
+	edges := make([][]edge, len(infos))
+	for i, ri := range infos {
+		edges[i] = make([]edge, len(entries))
+		for k, e := range entries {
+			ok, v := e.accepts(w, ri, !batch)
+			// requests that must be answered are served first (an augmenting path never
+			// un-matches an entry), then null ids, then ambiguous entries, then the deviation
+			tier := 0
+			switch e.kind {
+			case ekNullID:
+				tier = 1
+			case ekFuzzy:
+				tier = 2
+			case ekNotif:
+				tier = 3
+			}
+			edges[i][k] = edge{ok, v, tier}
+		}
+	}
+	entryOf := make([]int, len(infos))
+	respOf := make([]int, len(entries))
+	for i := range entryOf {
+		entryOf[i] = -1
+	}
+	for k := range respOf {
+		respOf[k] = -1
+	}
+	for tier := 0; tier <= 3; tier++ {
+		var try func(i int, seen []bool) bool
+		try = func(i int, seen []bool) bool {
+			for k := range entries {
+				if !edges[i][k].ok || edges[i][k].tier > tier || seen[k] {
 					continue
 				}
-				if ok, v := e.accepts(w, ri, !batch); ok {
-					hit, hitV = e, v
-					break
+				seen[k] = true
+				if respOf[k] == -1 || try(respOf[k], seen) {
+					respOf[k], entryOf[i] = i, k
+					return true
 				}
 			}
-			if hit != nil {
-				break
+			return false
+		}
+		for i := range infos {
+			if entryOf[i] == -1 {
+				try(i, make([]bool, len(entries)))
 			}
 		}
-		if hit == nil {
+	}
+	for i, ri := range infos {
+		k := entryOf[i]
+		if k == -1 {
 			if !ri.hasResult && !ri.hasError {
-				add("response-has-neither-result-nor-error", "response %s has neither result nor error", r.String())
+				add("response-has-neither-result-nor-error", "response %s has neither result nor error", ri.src.String())
 			} else {
-				add("response-matches-no-request", "response %s is not the answer to any request of the input (wrong id, wrong error code, wrong result, or a duplicate)", r.String())
+				add("response-matches-no-request", "response %s is not the answer to any request of the input (wrong id, wrong error code, wrong result, or a duplicate)", ri.src.String())
 			}
 			continue
 		}
-		hit.matched = true
-		if hitV != nil {
-			vs = append(vs, Verdict{Sig: hitV.Sig, What: hitV.What})
+		entries[k].matched = true
+		if v := edges[i][k].v; v != nil {
+			vs = append(vs, *v)
 		}
 	}
 	for _, e := range entries {
